@@ -38,4 +38,10 @@ func init() {
 	reg("C19", propMeta{Level: "fault_enumeration", QuickRuns: 6000, ThoroughRuns: 250000,
 		Rule: "one run = a generated fact set (1-5 predicates incl. zero-arity, p/1 and p/2, dotted names; constants of every kind: multi-part names, strings with quotes/backslashes/control characters/non-ASCII, bytes, boundary integers, floats, times, durations, nested pairs/lists/maps/structs; optionally an empty predicate listed by a read-only wrapper) written with WriteTo through {plain, gzip, zstd} x {Deterministic on/off} onto a stub writer, read back (a) by ReadInto into a drawn store kind through a stub reader with a drawn delivery schedule (full, random chunks, 1 byte, stutter + data-with-EOF) and (b) through NewSimpleColumnStore(opener)+GetFacts for drawn pattern shapes (all variables / one constant / ground / absent predicate), each GetFacts re-opening the medium; one fault kind per run in half of the runs: write error at a drawn offset (sticky or transient), non-EOF read error at a drawn offset, opener failing on the j-th open. Oracle: err == nil => reloaded set == original set (a reported error is never a violation); Deterministic => bytes equal across store kind, insertion order and map order. Thorough additionally enumerates every fault offset for small media. Non-trivial: >= 2 facts. Distinct = distinct trace hashes.",
 		Assumptions: []string{"strings are valid UTF-8 (byte strings are arbitrary)", "fact sets are free of Atom.Hash collisions (known finding under C06)", "torn or corrupted media are judged under C10, not here"}})
+	reg("C01", propMeta{Level: "exploration", QuickRuns: 4000, ThoroughRuns: 200000,
+		Rule: "one run = one generated safe, stratified, type-correct program with a finite model (1-6 IDB predicates in recursion groups, 1-3 rules each, 1-3 positive atoms per body plus comparisons, (in)equalities, guarded arithmetic, negation against lower groups, structured-data builtins/functions, let-transforms, by swarm flags) over 1-3 EDB predicates with up to 12 facts; parsed, analysed and evaluated by the real engine under a drawn map-order policy x store kind x deterministic-order flag x inline/preloaded facts; oracle: the store's non-internal facts equal, in both directions, the model computed by an independent reference evaluator (stratified naive fixpoint over the generator's own IR). Non-trivial: accepted and >= 1 derived fact. Distinct = distinct trace hashes.",
+		Assumptions: []string{"reference evaluator covers the generator's fragment only (DESIGN 3.6)", "runs whose model contains two atoms with equal Atom.Hash are discarded (known finding under C06)"}})
+	reg("C20", propMeta{Level: "exploration", QuickRuns: 4000, ThoroughRuns: 200000,
+		Rule: "one run = one generated transform-free program (positive and negated atoms, =, !=, comparisons, builtins, function expressions; recursion groups) with its base facts preloaded into two equal SimpleInMemoryStores; EvalProgramNaive and the semi-naive EvalProgram run under the same or different drawn map-order policies; oracle: equal stores (the reference model is only used to say which side is wrong). Programs rejected by either entry point are vacuous. Non-trivial: both accept and >= 1 derived fact. Distinct = distinct trace hashes.",
+		Assumptions: []string{"programs that only one evaluator accepts are outside the statement"}})
 }
